@@ -228,6 +228,9 @@ def check(ctx) -> None:
     from . import c06 as _c06
 
     _c06.rule_b7(ctx, ctx.res.reachable(["synrbl.balancing.Balancer.rebalance"], ctx.graph), "C18-Z11")
+    # Z12: the dictionary the counters are merged into is the caller's own for this run: nobody edits a container that
+    # is a parameter default (a front end with `stats={}` keeps adding to one dictionary; shared with C06-B13)
+    _c06.rule_b13(ctx, "C18-Z12")
     rule_z5(ctx)
     rule_z6(ctx)
     # Z7: the stages count the rows that are returned: no row is removed from (or folded into another row of) the batch
